@@ -84,7 +84,7 @@ pub fn stub_expand_key(key: &[u8], t1: usize) -> [u16; 64] {
     }
 }
 
-//@ harness name=rc2_new_from_slice prop=C09,C20 tier=quick bits=3096 stub=1 est=60 desc="W: Rc2::new_from_slice(k), len symbolic 0..=130, is Err exactly for len 0 or > 128 and otherwise holds expand_key(k, 8*len) -- the same round keys as new_with_eff_key_len(k, 8*len) (which holds expand_key(k, t1) for any t1); expand_key uninterpreted (its conformance for all (len, t1) is rc2_expand_*)"
+//@ harness name=rc2_new_from_slice prop=C09,C20 tier=quick bits=3096 stub=1 est=189 desc="W: Rc2::new_from_slice(k), len symbolic 0..=130, is Err exactly for len 0 or > 128 and otherwise holds expand_key(k, 8*len) -- the same round keys as new_with_eff_key_len(k, 8*len) (which holds expand_key(k, t1) for any t1); expand_key uninterpreted (its conformance for all (len, t1) is rc2_expand_*)"
 verif_harness! {
     name: rc2_new_from_slice,
     bytes: 131 + 256,
@@ -151,7 +151,7 @@ verif_harness! {
     }
 }
 
-//@ harness name=rc2_new_eff_w prop=C09 tier=quick bits=3112 stub=1 est=60 desc="W: Rc2::new_with_eff_key_len(k, t1) holds exactly expand_key(k, t1): key length symbolic 1..=128, t1 symbolic 1..=1024, arguments passed unchanged; expand_key uninterpreted"
+//@ harness name=rc2_new_eff_w prop=C09 tier=quick bits=3112 stub=1 est=27 desc="W: Rc2::new_with_eff_key_len(k, t1) holds exactly expand_key(k, t1): key length symbolic 1..=128, t1 symbolic 1..=1024, arguments passed unchanged; expand_key uninterpreted"
 verif_harness! {
     name: rc2_new_eff_w,
     bytes: 131 + 2 + 128,
@@ -214,7 +214,7 @@ fn arb_state(inp: &[u8; 136]) -> (Rc2, [u8; 8]) {
     (Rc2 { keys }, take(inp, 128))
 }
 
-//@ harness name=rc2_conf_enc prop=C09,C20 tier=quick bits=1088 est=60 desc="D: encrypt_block on an arbitrary round-key state K[0..63] (superset of all keys / effective lengths) == RFC 2268 encryption (5 mix, mash, 6 mix, mash, 5 mix), all blocks; mash indices in range"
+//@ harness name=rc2_conf_enc prop=C09,C20 tier=quick bits=1088 est=149 desc="D: encrypt_block on an arbitrary round-key state K[0..63] (superset of all keys / effective lengths) == RFC 2268 encryption (5 mix, mash, 6 mix, mash, 5 mix), all blocks; mash indices in range"
 verif_harness! {
     name: rc2_conf_enc,
     bytes: 136,
@@ -227,7 +227,7 @@ verif_harness! {
     }
 }
 
-//@ harness name=rc2_conf_dec prop=C09,C20 tier=quick bits=1088 est=60 desc="D: decrypt_block on an arbitrary round-key state == RFC 2268 decryption (r-mix / r-mash), all blocks; j never leaves 0..=63 where it is used"
+//@ harness name=rc2_conf_dec prop=C09,C20 tier=quick bits=1088 est=172 desc="D: decrypt_block on an arbitrary round-key state == RFC 2268 decryption (r-mix / r-mash), all blocks; j never leaves 0..=63 where it is used"
 verif_harness! {
     name: rc2_conf_dec,
     bytes: 136,
